@@ -21,6 +21,10 @@ pub use websocket::{
 use crate::{BatchRequest, ParseRequestError, Request};
 
 /// Parse a GraphQL request from a query string.
+///
+/// A query string is how a request arrives over HTTP GET, which must not be
+/// used to execute mutations, so the returned request rejects mutation
+/// operations (see [`Request::disallow_mutations`]).
 pub fn parse_query_string(input: &str) -> Result<Request, ParseRequestError> {
     #[derive(Deserialize)]
     struct RequestSerde {
@@ -50,6 +54,7 @@ pub fn parse_query_string(input: &str) -> Result<Request, ParseRequestError> {
         operation_name: request.operation_name,
         variables,
         extensions,
+        disallow_mutations: true,
         ..Request::new(request.query)
     })
 }
